@@ -99,6 +99,8 @@ def make_case(seed, i, tier='quick'):
     rng = random.Random('fvmon/C15/%s/%s' % (seed, i))
     desc = gw.gen(rng, whole_col=(tier != 'quick' and i % 4 == 0))
     readers = gw.add_adjacent_arrays(rng, desc) if i % 3 == 1 else []
+    if i % 2 == 0:
+        desc['spill_cache'] = True      # files as Excel saves them
     if i % 3 == 2:
         # formula-valued names over another book / over a sheet that does not
         # exist, and cells reading them (the names must be followed too)
